@@ -42,3 +42,18 @@ package leaderrotation
 //@   ensures result == leaderOf(self, arg0)
 //@   preserves @std
 //@   ensures blockchain.storeskept() && core.cfgstable()
+
+// ---- the stateless schemes as they are used (C16: "name the same leader on every replica,
+// always a configured replica"): each is a function of the view and the configuration only.
+//@ func (RoundRobin).GetLeader property C16
+//@   requires rr.config != nil && 1 <= len(rr.config.replicas) && len(rr.config.replicas) <= 4294967295
+//@   ensures [def] result == view % len(rr.config.replicas) + 1
+//@   ensures [configured] 1 <= result && result <= len(rr.config.replicas)
+
+//@ func (*Fixed).GetLeader property C16
+//@   ensures [def] result == f.leader
+
+//@ func (*TreeBased).GetLeader property C16
+//@   requires t.config != nil && (t.config.tree != nil ==> len(t.config.tree.treePosToID) >= 1)
+//@   ensures [no-tree] t.config.tree == nil ==> result == 1
+//@   ensures [root] t.config.tree != nil ==> tree.isPos(*t.config.tree, result, 0)
